@@ -383,7 +383,7 @@ Proof.
       rewrite seq_S, cnt_app, X. cbn [plus]. rewrite Y. reflexivity. }
     constructor; [assumption| | |]; unfold live, live_in_map, p_active;
       cbn [p_idle p_closed p_pending p_peak p_streams p_hits p_n];
-      change client_adds_new_session_to_idle with true; cbn iota.
+      change client_adds_new_session_to_idle with true; change client_seq_before_add with true; cbn iota.
     + rewrite Lm. lia.
     + lia.
     + rewrite Lm, Ll. lia.
